@@ -20,7 +20,7 @@ import (
 //	                mal != 0 = a misbehaving engine: 1 reversed order, 2 re-ack of already
 //	                acked records, 3 skip one record, 4 an empty position in a non-last slot
 //	timer           the debounce timer fires (if armed)
-//	flush           Persister.Flush
+//	flush ctx       Persister.Flush(ctx)
 //	release ok new  a parked commit finishes (ok / fails); when nothing is parked and !ok the
 //	                next un-gated commit fails
 //	failset s       the next Set of source s (-1: of any connector) inside a tx fails
@@ -30,7 +30,14 @@ import (
 //	releasesend s   the parked send of source s goes on
 //	stop s          Source.Stop (the graceful stop signal: the plugin answers with the last position
 //	                it handed out; the engine reads no further records of s afterwards)
-//	teardown s      Source.Teardown
+//	teardown s ctx  Source.Teardown(ctx)
+//
+// ctx (flush, teardown) is the state of the context the caller hands over: 0 live, 1 already
+// cancelled when the call is made, 2 expiring: cancelled as soon as the call has returned or has
+// been seen blocked behind a parked commit / a parked send (a force-stopped pipeline tears its
+// sources down with exactly such a context). The unchanged code serialises a flush behind the
+// write in flight whatever the context says; a cancelled context only cuts Teardown's two bounded
+// waits short (so such a teardown is never reported as "fast").
 type Step struct {
 	Op     string `json:"op"`
 	S      int    `json:"s,omitempty"`
@@ -38,6 +45,7 @@ type Step struct {
 	Mal    int    `json:"mal,omitempty"`
 	Ok     bool   `json:"ok,omitempty"`
 	Newest bool   `json:"newest,omitempty"`
+	Ctx    int    `json:"ctx,omitempty"`
 	Rush   bool   `json:"rush,omitempty"` // do not wait for the system to settle after this step
 }
 
@@ -457,7 +465,21 @@ func (w *World) stop(s int) {
 	sc.busy = w.background(func() { _, _ = sc.src.Stop(context.Background()) })
 }
 
-func (w *World) teardown(s int) {
+// callCtx returns the context of a call with ctx mode `mode` and what the schedule does once the
+// call has returned or has been seen blocked.
+func callCtx(mode int) (context.Context, func()) {
+	switch mode {
+	case 1:
+		ctx, cancel := context.WithCancel(context.Background())
+		cancel()
+		return ctx, func() {}
+	case 2:
+		return context.WithCancel(context.Background())
+	}
+	return context.Background(), func() {}
+}
+
+func (w *World) teardown(s, mode int) {
 	w.reap(s)
 	sc := w.srcs[s]
 	if sc.tdStarted || w.isBusy(sc) {
@@ -465,16 +487,19 @@ func (w *World) teardown(s int) {
 	}
 	sc.tdStarted = true
 	w.Log.Add(Event{K: "tdbegin", S: s})
+	ctx, after := callCtx(mode)
 	sc.tdDone = w.background(func() {
 		t0 := time.Now()
-		_ = sc.src.Teardown(context.Background())
-		// Ok = fast: none of Teardown's bounded waits can have timed out
-		w.Log.Add(Event{K: "tdend", S: s, Ok: time.Since(t0) < w.tdBudget/2})
+		_ = sc.src.Teardown(ctx)
+		// Ok = fast: none of Teardown's bounded waits can have given up (neither on its budget
+		// nor on the caller's context)
+		w.Log.Add(Event{K: "tdend", S: s, Ok: mode == 0 && time.Since(t0) < w.tdBudget/2})
 	})
+	after()
 }
 
 func (w *World) Do(st Step) {
-	if st.S < -1 || st.S >= w.in.NSrc {
+	if st.S < -1 || st.S >= w.in.NSrc || st.Ctx < 0 || st.Ctx > 2 {
 		return
 	}
 	switch st.Op {
@@ -495,7 +520,9 @@ func (w *World) Do(st Step) {
 			w.background(f)
 		}
 	case "flush":
-		w.background(func() { w.pers.Flush(context.Background()) })
+		ctx, after := callCtx(st.Ctx)
+		w.background(func() { w.pers.Flush(ctx) })
+		after()
 	case "release":
 		if !w.DB.Release(st.Ok, st.Newest) && !st.Ok {
 			w.DB.FailNextCommit()
@@ -522,7 +549,7 @@ func (w *World) Do(st Step) {
 		}
 	case "teardown":
 		if st.S >= 0 {
-			w.teardown(st.S)
+			w.teardown(st.S, st.Ctx)
 		}
 	default:
 		return
@@ -558,7 +585,7 @@ func (w *World) Finish() []Event {
 	}
 	w.settle()
 	for s := range w.srcs {
-		w.teardown(s)
+		w.teardown(s, 0)
 	}
 	for time.Now().Before(deadline) {
 		if w.DB.Release(true, false) || w.releaseSends() {
